@@ -12,6 +12,8 @@ use trv_core::world::World;
 
 trv_core::install_clock_seam!();
 
+mod threads;
+
 #[derive(Clone, Copy, Debug, PartialEq)]
 enum Strat {
     Value,
@@ -254,6 +256,26 @@ fn main() {
         eprintln!("p-fallback serves C17");
         std::process::exit(2);
     }
+    if let Some(p) = cli.replay.clone() {
+        let v = trv_core::load_replay(&p);
+        if let Some(ch) = v["history"]["thread_schedule"].as_array() {
+            let choices: Vec<usize> = ch.iter().filter_map(|x| x.as_u64().map(|u| u as usize)).collect();
+            match threads::replay(v["config"].as_str().unwrap_or(""), &choices, v["kind"].as_str().unwrap_or("")) {
+                Some(true) => {
+                    println!("VIOLATION property=C17 replay={p}");
+                    std::process::exit(1);
+                }
+                Some(false) => {
+                    println!("replay: the recorded violation does not occur on the current tree");
+                    std::process::exit(0);
+                }
+                None => {
+                    eprintln!("MACHINERY no thread configuration with that label");
+                    std::process::exit(2);
+                }
+            }
+        }
+    }
     let replaying = cli.replay.clone().map(|p| trv_core::load_replay(&p));
     let mut rep = Report::new("C17", cli.tier, "exploration");
     rep.rule = "full grid: 7 strategies (value, value function, from error, from request and error, backup service ok / failing, error transformation) x 4 predicates (none, accept, reject, by error kind) x both builder call orders x every sequence of 3 (thorough: 5) inner outcomes over {ok, error kind 0, error kind 1} on one service instance and a clone, with distinguishable requests; outer results, inner and backup call logs compared with a pure reference function. distinct = distinct (strategy, predicate, inner outcome, observed result class)".into();
@@ -456,6 +478,9 @@ fn main() {
     }
     if cli.replay.is_none() || replaying.as_ref().map_or(false, |v| v["kind"] == "request_affected_by_another_request") {
         overlap_run(&mut rep);
+    }
+    if cli.replay.is_none() {
+        threads::run(cli.tier, &mut rep);
     }
     for w in ["pass_through_ok", "fallback_value", "pass_through_err", "transformed_err", "fallback_failed"] {
         rep.require_witness(w);
